@@ -479,7 +479,12 @@ def c09_monitor(ctx, tr, ix):
                 bal = a["obs"]["cash"] + a["frozen"]
                 if bal < -1e-6:
                     o = e["order"]
-                    ctx.witness("C09.3", {"kind": "balance_negative_after_open_fill", "account": t, "side": e["trade"]["side"], "type": o["type"]},
+                    # is the traded leg marked ABOVE the price the reserve was computed on (the mechanism of finding F16)? If not, the shortfall has another cause
+                    leg = "long" if e["trade"]["side"] == "BUY" else "short"
+                    hh = next((h for h in a["holdings"] if h["id"] == e["trade"]["book"]), None)
+                    fp_ = o.get("frozen_price")
+                    above = bool(hh is not None and fp_ is not None and hh[leg]["last"] == hh[leg]["last"] and hh[leg]["last"] > fp_ + 1e-9)
+                    ctx.witness("C09.3", {"kind": "balance_negative_after_open_fill", "account": t, "side": e["trade"]["side"], "type": o["type"], "mark_above_frozen_price": above},
                                 "%s %s %s x %s @ %r (frozen price %r): available + reserved cash %r" % (t, e["trade"]["side"], e["trade"]["book"], e["trade"]["qty"], e["trade"]["price"], o["frozen_price"], bal), rp)
     ctx.evaluations += n
     ctx.stats["c09_observations"] += n
